@@ -955,3 +955,23 @@ func fanBodiesA3(consume *ssa.Function, payload ssa.Value) []*fanBodyA3 {
 	}
 	return out
 }
+
+// isBackOffEnabledA3: v reads the Enabled flag of a configretry.BackOffConfig (held in whatever field or variable).
+func isBackOffEnabledA3(v ssa.Value) bool {
+	v = strip(v)
+	if u, ok := v.(*ssa.UnOp); ok && u.Op == token.MUL {
+		v = u.X
+	}
+	var base types.Type
+	var idx int
+	switch y := v.(type) {
+	case *ssa.FieldAddr:
+		base, idx = y.X.Type(), y.Field
+	case *ssa.Field:
+		base, idx = y.X.Type(), y.Field
+	default:
+		return false
+	}
+	st := derefStruct(base)
+	return st != nil && st.Field(idx).Name() == "Enabled" && typeIs(base, modPrefix+"/config/configretry", "BackOffConfig")
+}
